@@ -184,6 +184,11 @@ fn gen_random(rng: &mut Rng, maxn: u64) -> Vec<M> {
     msgs
 }
 
+/// a generated stream as case text (used by other areas)
+pub fn gen_stream(rng: &mut Rng, maxn: u64) -> String {
+    fmt_case(&gen_random(rng, maxn))
+}
+
 impl Area for Lc {
     fn gen(&self, rng: &mut Rng, tier: u32) -> String {
         let maxn = if tier == 0 { 16 } else { 40 };
